@@ -44,6 +44,20 @@ func (e *C17) Floors(string) map[string]int {
 	return map[string]int{"C17.batches": 250, "C17.batches-with-failures": 150, "C17.sync-level-judged": 40, "C17.system-runs": 10, "C17.injected-errors": 2000}
 }
 
+// tplTol is kit.Tpl with, in two cases out of three, tolerations of the template's own: one unrelated to the
+// default DaemonSet tolerations, or one equal to a default one (the pod builder merges the defaults
+// into the template's list inside every goroutine of a fan-out).
+func tplTol(marker string, k int) corev1.PodTemplateSpec {
+	t := kit.Tpl(marker)
+	switch k % 3 {
+	case 1:
+		t.Spec.Tolerations = []corev1.Toleration{{Key: "dedicated", Operator: corev1.TolerationOpEqual, Value: "infra", Effect: corev1.TaintEffectNoSchedule}}
+	case 2:
+		t.Spec.Tolerations = []corev1.Toleration{{Key: "node.kubernetes.io/unschedulable", Operator: corev1.TolerationOpExists, Effect: corev1.TaintEffectNoSchedule}, {Key: "dedicated", Operator: corev1.TolerationOpExists}}
+	}
+	return t
+}
+
 func jitterHook(r *rand.Rand) func(string, *simapi.Call) {
 	var mu sync.Mutex
 	return func(phase string, c *simapi.Call) {
@@ -95,7 +109,7 @@ func (e *C17) batch(ctx *core.Ctx, idx int) {
 	c.Hook = jitterHook(rand.New(rand.NewSource(r.Int63())))
 	eds := kit.NewEDS("ns", "foo", "A", nil)
 	eds.UID = "uid-eds"
-	rs := kit.NewRS(s, eds, "foo-a", kit.Tpl("A"), kit.T0)
+	rs := kit.NewRS(s, eds, "foo-a", tplTol("A", idx), kit.T0)
 	rs.UID = "uid-rs"
 	failNode := map[string]bool{}
 	nilScheme := op == "createPods" && r.Intn(3) == 0
@@ -281,7 +295,7 @@ func (e *C17) syncLevel(ctx *core.Ctx) {
 	eds.UID = "uid-eds"
 	eds.Spec.Strategy.RollingUpdate.MaxUnavailable = kit.PS("100%")
 	eds.Spec.Strategy.RollingUpdate.SlowStartAdditiveIncrease = kit.IS(100)
-	rsB := kit.NewRS(s, eds, "foo-b", kit.Tpl("B"), kit.T0.Add(-time.Hour))
+	rsB := kit.NewRS(s, eds, "foo-b", tplTol("B", r.Intn(3)), kit.T0.Add(-time.Hour))
 	eds.Status.ActiveReplicaSet = "foo-b"
 	n := 4 + r.Intn(12)
 	// "mixed": outdated pods on half of the nodes, none on the others - the same sync deletes and creates
@@ -414,7 +428,8 @@ func (e *C17) system(ctx *core.Ctx) {
 	strat, _ := genStrategy(r, Profile{CanaryProb: 0.5})
 	strat.ReconcileFrequency = &metav1.Duration{Duration: time.Second}
 	ed := &v1.ExtendedDaemonSet{ObjectMeta: metav1.ObjectMeta{Namespace: "ns1", Name: "foo"}}
-	ed.Spec.Template = kit.Tpl("A")
+	tolKind := r.Intn(3)
+	ed.Spec.Template = tplTol("A", tolKind)
 	ed.Spec.Strategy = strat
 	w.CreateEDS(ed)
 	// a second ExtendedDaemonSet of the same namespace: its reconciles run in parallel with foo's
@@ -506,7 +521,7 @@ func (e *C17) system(ctx *core.Ctx) {
 		case 0, 2:
 			// frequent template edits: replica sets are created and garbage-collected while others sync
 			w.S.Mutate(simapi.KindEDS, "ns1", []string{"foo", "bar"}[rr.Intn(2)], func(o client.Object) {
-				o.(*v1.ExtendedDaemonSet).Spec.Template = kit.Tpl([]string{"A", "B", "C"}[rr.Intn(3)])
+				o.(*v1.ExtendedDaemonSet).Spec.Template = tplTol([]string{"A", "B", "C"}[rr.Intn(3)], tolKind)
 			})
 		case 1:
 			w.S.Mutate(simapi.KindEDS, "ns1", "foo", func(o client.Object) {
